@@ -44,10 +44,21 @@ def play_fens(wvbin, wd, seed, games, plies, every=3):
     wv(wvbin, ["play", "--seed", seed, "--games", games, "--plies", plies, "--emit", "move", "--corpus",
                os.path.join(CORPUS, "positions.fen"), "--out-prefix", os.path.join(wd, "pf")])
     out = []
+    prev = None
     for i, l in enumerate(open(os.path.join(wd, "pf.move.ndjson"))):
         e = json.loads(l)
-        if e.get("ev") == "Move" and i % every == 0:
-            out.append(pos_to_fen(e["next"]))
+        if e.get("ev") == "Reset":
+            prev = e["pos"]
+        if e.get("ev") == "Move":
+            # roots with a special shape are always kept: the side to move is in check, has at most two legal moves, or can
+            # castle / capture en passant / promote right now
+            ms = e["moves"]
+            special = e["check"] or len(ms) <= 2 or any(m["castle"] != "." or m["ep"] or m["promo"] != "." for m in ms)
+            if prev is not None and special and (i % 2 == 0):
+                out.append(pos_to_fen(prev))
+            if i % every == 0:
+                out.append(pos_to_fen(e["next"]))
+            prev = e["next"]
     return out
 
 
@@ -468,6 +479,7 @@ def check_c03(pid, tier, seed):
         wbs.append({"id": 900000 + i, "steps": steps})
     whitebox(chk, wvbin, wd, pid, wbs)
     cli_evaluate(chk, wd, pid, fens + [f for f in TERMINAL_FENS], rnd, 10 if quick else 150)
+    uci_pv_part(chk, wd, pid, fens, rnd, 12 if quick else 150)
     st, samples = trace_stats(traces)
     chk.coverage.update({"evaluations": st["searches"], "distinct_nontrivial": st["multi_worker"] + st["reused_memory"],
                          "rule": "searches of corpus and random-play positions through the hooked synchronous entry point (depth 1-4, seeds, 1-32 workers, seeded schedules of the workers' table accesses, table sizes down to one bucket), and sessions that reuse one memory across a root and its specification-generated variants (castling rights / en-passant / side), neighbours and unrelated positions; every reported line is replayed by TLC with Legal/Apply; non-trivial = searches with several workers or with a reused memory",
@@ -510,6 +522,36 @@ def cli_evaluate(chk, wd, pid, fens, rnd, n):
     fold_diags(chk, res, pid)
     chk.coverage["cli_evaluate"] = {"commands": len(evs), "lines_judged": sum(len(e["lines"]) for e in evs)}
     chk.coverage["traces_validated_against_impl"] = chk.coverage.get("traces_validated_against_impl", 0) + 1
+
+
+def uci_pv_part(chk, wd, pid, fens, rnd, n):
+    """The lines the front end prints while it searches (`info pv ...`, coordinate notation) judged by UciTrace.tla."""
+    import uci_driver
+    import ucichecks
+    cli = build_cli()
+    sessions = []
+    for i in range(n):
+        f = fens[(i * 13) % len(fens)]
+        pc = {"kind": "position", "line": "position fen " + f, "base": "fen", "fen": list(f), "pos": uci_driver.fen_to_pos(f), "moves": [], "valid": True}
+        go = rnd.choice(["go depth 2", "go depth 3", "go depth 4", "go movetime 150"])
+        sessions.append((400000 + i, True, "immediate", [pc, {"kind": "go", "line": go}, {"kind": "wait", "line": "", "timeout": 20.0}, {"kind": "quit", "line": "quit"}]))
+    traces = ucichecks.run_sessions(cli, wd, "ucipv", sessions, parallel=6)
+    res = tlc_many([dict(module="UciTrace", trace=t, xmx="3g", timeout=3000) for t in traces])
+    chk.add_tlc(res)
+    npv = 0
+    for t in traces:
+        for l in open(t):
+            npv += '"kind": "pv"' in l
+    for r in res:
+        for d in r["diags"]:
+            w = d.get("what", {})
+            if d.get("prop") == "TOOL":
+                tool_error("driver/specification mismatch: %s" % json.dumps(d))
+            if d.get("prop") == pid:
+                chk.violation("|".join([pid, "uci", str(w.get("kind")), str(w.get("pos", ""))]), "UCI: %s: %s" % (w.get("kind"), json.dumps({a: b for a, b in w.items() if a != "kind"}, sort_keys=True)),
+                              {"module": "UciTrace", "trace": r["trace"], "diag": d})
+    chk.coverage["uci_pv_lines"] = {"sessions": n, "lines_judged": npv}
+    chk.coverage["traces_validated_against_impl"] = chk.coverage.get("traces_validated_against_impl", 0) + len(traces)
 
 
 # ------------------------------------------------------------------ C04
@@ -827,6 +869,9 @@ def check_c19(pid, tier, seed):
     for k, f in enumerate(["q2k2q1/2nqn2b/1n1P1n2/2rnr3/1NQ1QN2/3Q3B/2RQR3/3K2Q1 w - - 0 1", "rnb2bnr/p4k2/4p1p1/1ppp1pqp/P1PPPBPP/NP3N2/5P2/R1Q1KB1R b KQ - 1 11"]):
         for r in range(2 if quick else 6):
             pub.append({"id": 510000 + 10 * k + r, "fen": f, "depth": 2 if quick or r % 2 == 0 else 3, "seed": rnd.randrange(1 << 30), "reuse": False, "tag": "P"})
+    # searches share nothing: run A of these has an unrelated, unbounded analysis running beside it in the same process
+    for k in range(3 if quick else 16):
+        pub.append({"id": 520000 + k, "fen": fens[(k * 5 + 1) % len(fens)], "depth": 3, "seed": rnd.randrange(1 << 30), "reuse": False, "tag": "P"})
     # one process pair per case, so that run A is the *first* fresh search of its process and run B a later one
     ptr = []
     for j, pcase in enumerate(pub):
@@ -834,7 +879,9 @@ def check_c19(pid, tier, seed):
             script = os.path.join(wd, "c19pub_%d_%d.jsonl" % (j, k))
             with open(script, "w") as f:
                 for tg in tagset:
-                    f.write(json.dumps(dict(pcase, tag=tg)) + "\n")
+                    # every second case: run A has an unrelated unbounded analysis running beside it in the same process
+                    extra = {"background": "r3k2r/p1ppqpb1/bn2pnp1/3PN3/1p2P3/2N2Q1p/PPPBBPPP/R3K2R w KQkq - 0 1"} if tg == "A" and pcase["id"] >= 520000 else {}
+                    f.write(json.dumps(dict(pcase, tag=tg, **extra)) + "\n")
             ptr.append((script, os.path.join(wd, "c19pub_%d_%d.ndjson" % (j, k)), k))
     with ThreadPoolExecutor(max_workers=6) as ex:
         list(ex.map(lambda sp: subprocess.run([wvbin, "search-public", "--script", sp[0], "--out", sp[1]], capture_output=True, timeout=3000), ptr))
@@ -890,6 +937,6 @@ def check_c19(pid, tier, seed):
     first = json.loads(open(path).readline())
     distinct = len({(s["steps"][0]["fen"], s["steps"][0]["seed"], s["steps"][0]["depth"]) for s in sessions}) + len(pub)
     chk.coverage.update({"evaluations": n * 3, "distinct_nontrivial": distinct, "traces_validated_against_impl": len(shards),
-                         "rule": "(position, seed, depth) triples: each searched three times with fresh memory and one worker - twice in one process, once in another - through the hooked entry point (depth 1-4) and through the public threaded entry point (depth 1-3), and twice through the `weechess evaluate` command line; the complete sequences of reports (lines, evaluations) and progress events (node counts) must be identical (SearchTrace!TRepro); distinct = distinct triples",
+                         "rule": "(position, seed, depth) triples: each searched three times with fresh memory and one worker - twice in one process (some public triples have an unrelated unbounded analysis running beside their first run), once in another - through the hooked entry point (depth 1-4) and through the public threaded entry point (depth 1-3), and twice through the `weechess evaluate` command line; the complete sequences of reports (lines, evaluations) and progress events (node counts) must be identical (SearchTrace!TRepro); distinct = distinct triples",
                          "samples": [{"fen": first["fen"], "seed": first["seed"], "depth": first["depth"], "run_a": first["a"][:2]}]})
     chk.finish()
